@@ -4,6 +4,7 @@ package fw
 
 import (
 	"crypto/sha256"
+	"encoding/binary"
 	"encoding/hex"
 	"encoding/json"
 	"fmt"
@@ -15,6 +16,7 @@ import (
 	"strconv"
 	"strings"
 	"sync"
+	"syscall"
 	"time"
 )
 
@@ -53,6 +55,8 @@ type Ctx struct {
 	NShards  int
 	Seed     int64
 	Scratch  string // per-worker scratch directory (removed by the parent)
+	outPath  string
+	crumb    []byte
 	Deadline time.Time
 
 	mu  sync.Mutex
@@ -137,6 +141,53 @@ func (c *Ctx) Report(sig, desc string, cas interface{}) {
 	}
 	raw, _ := json.Marshal(cas)
 	c.vio[sig] = &Violation{Sig: sig, Desc: desc, Case: raw, Count: 1}
+}
+
+// Breadcrumb records, before a call into the code under exploration that might take the whole worker down (memory
+// without end, stack overflow — not recoverable in Go), which case is about to run. If the worker then dies with a
+// fatal runtime error whose stack is inside the library, the parent reports that case as a violation.
+func (c *Ctx) Breadcrumb(sig, desc string, cas interface{}) {
+	if c.crumb == nil {
+		// a shared file mapping: writing it costs no system call, and what was written survives the death of the process
+		f, err := os.OpenFile(filepath.Join(c.Scratch, "breadcrumb.bin"), os.O_RDWR|os.O_CREATE|os.O_TRUNC, 0644)
+		if err != nil {
+			return
+		}
+		defer f.Close()
+		if f.Truncate(crumbSize) != nil {
+			return
+		}
+		m, err := syscall.Mmap(int(f.Fd()), 0, crumbSize, syscall.PROT_READ|syscall.PROT_WRITE, syscall.MAP_SHARED)
+		if err != nil {
+			return
+		}
+		c.crumb = m
+	}
+	raw, _ := json.Marshal(cas)
+	if len(raw) > crumbSize/2 {
+		raw = []byte("null")
+	}
+	b, _ := json.Marshal(Violation{Sig: sig, Desc: desc, Case: raw, Count: 1})
+	if len(b)+4 > crumbSize {
+		return
+	}
+	binary.LittleEndian.PutUint32(c.crumb[:4], 0) // invalid while it is being written
+	copy(c.crumb[4:], b)
+	binary.LittleEndian.PutUint32(c.crumb[:4], uint32(len(b)))
+}
+
+const crumbSize = 1 << 18
+
+func readBreadcrumb(dir string) ([]byte, error) {
+	b, err := os.ReadFile(filepath.Join(dir, "breadcrumb.bin"))
+	if err != nil || len(b) < 4 {
+		return nil, fmt.Errorf("no breadcrumb")
+	}
+	n := int(binary.LittleEndian.Uint32(b[:4]))
+	if n == 0 || n+4 > len(b) {
+		return nil, fmt.Errorf("no breadcrumb")
+	}
+	return b[4 : 4+n], nil
 }
 
 // Violated says whether sig has already been reported by this worker.
@@ -289,15 +340,46 @@ func worker(a []string) {
 	}
 	c := &Ctx{ID: id, Tier: tier, Shard: i, NShards: n, Seed: seed(), Scratch: scratch}
 	c.res.Exhaustive = true
+	c.outPath = out
 	if ch.Budget != nil {
 		c.Deadline = time.Now().Add(ch.Budget(tier))
 	}
+	limitMemory()
 	ch.Run(c)
 	b, _ := json.Marshal(c.finish())
 	if err := os.WriteFile(out, b, 0644); err != nil {
 		fmt.Fprintln(os.Stderr, err)
 		os.Exit(2)
 	}
+}
+
+// limitMemory bounds the address space of a worker (the sandbox has no memory limit of its own): code under
+// exploration that allocates without end then dies with "out of memory" instead of taking the machine down.
+func memLimitText() string {
+	if v := os.Getenv("VERIF_WORKER_MEM_GB"); v != "" {
+		return v + " GiB"
+	}
+	return "12 GiB"
+}
+
+func limitMemory() {
+	gb := uint64(12)
+	if v, err := strconv.Atoi(os.Getenv("VERIF_WORKER_MEM_GB")); err == nil && v > 0 {
+		gb = uint64(v)
+	}
+	lim := syscall.Rlimit{Cur: gb << 30, Max: gb << 30}
+	syscall.Setrlimit(syscall.RLIMIT_AS, &lim)
+}
+
+// Abort ends this worker at once with what it has found so far (used after a hang in the code under exploration:
+// the hanging goroutine cannot be stopped and may go on allocating).
+func (c *Ctx) Abort() {
+	c.NotExhaustive("worker stopped early after a hang in the code under exploration")
+	b, _ := json.Marshal(c.finish())
+	if c.outPath != "" {
+		os.WriteFile(c.outPath, b, 0644)
+	}
+	os.Exit(0)
 }
 
 func merge(dst *Result, src Result) {
@@ -395,6 +477,29 @@ func parent(id, tier string) {
 			b, rerr := os.ReadFile(out)
 			if err != nil || rerr != nil {
 				lg, _ := os.ReadFile(filepath.Join(scratchRoot, fmt.Sprintf("w%d.log", i)))
+				// a fatal runtime error (out of memory, stack overflow) with the library on the stack, and a breadcrumb
+				// saying which case was running: that case is a violation, not an infrastructure failure
+				if bc, berr := readBreadcrumb(sc); berr == nil {
+					ls := string(lg)
+					fatal := ""
+					for _, f := range []string{"fatal error: out of memory", "fatal error: runtime: out of memory", "fatal error: stack overflow", "runtime: goroutine stack exceeds", "cannot allocate memory"} {
+						if strings.Contains(ls, f) {
+							fatal = f
+						}
+					}
+					var v Violation
+					if fatal != "" && strings.Contains(ls, "github.com/brutella/hc/") && json.Unmarshal(bc, &v) == nil {
+						site := ""
+						for _, l := range strings.Split(ls, "\n") {
+							if strings.HasPrefix(l, "github.com/brutella/hc/") && site == "" {
+								site = strings.SplitN(l, "(", 2)[0]
+							}
+						}
+						v.Desc += fmt.Sprintf(" — the worker process died with %q (memory limit %s) in %s", fatal, memLimitText(), site)
+						results[i] = Result{Exhaustive: false, Evaluations: 1, Violations: []Violation{v}, Notes: []string{"not exhaustive: a worker died with a fatal runtime error in the code under exploration; its other results are lost"}}
+						return
+					}
+				}
 				if len(lg) > 3000 {
 					lg = lg[len(lg)-3000:]
 				}
@@ -548,6 +653,7 @@ func replay(path string) {
 	sc, _ := os.MkdirTemp("", "vreplay-")
 	c := &Ctx{ID: rep.Property, Tier: "quick", NShards: 1, Seed: seed(), Scratch: sc}
 	c.res.Exhaustive = true
+	limitMemory() // a case recorded after a fatal runtime error dies here again ("fatal error: out of memory"), bounded
 	ch.Replay(c, rep.Case)
 	os.RemoveAll(sc)
 	finish(ch, "replay", c.finish(), 0, false)
